@@ -32,15 +32,20 @@ EXTENDS Integers, Sequences, FiniteSets, TLC, Json
 
 CONSTANTS Depth,     \* nesting depth of expressions
           MaxSteps,  \* number of make/clear operations per behaviour
-          Lits       \* literal values
+          Lits,      \* literal values
+          LitKinds,  \* the Python types a literal may have: subset of {"int", "bool", "float"} (1, True and 1.0 are equal
+                     \* and hash alike in Python, yet they are different literals: str(True) is not str(1))
+          WithKind   \* whether the type-observing callee `kind` and the bytes-returning callee `enc` take part
 
 \* values are uniformly tagged records so that TLC can compare any two of them
-I(x)   == [k |-> "int", n |-> x]
-Box(x) == [k |-> "box", n |-> x]          \* Box(val=x): .val = x, .items = (x, x+1)
-ERR    == [k |-> "err", n |-> 0]
+Num(k, x) == [k |-> k, n |-> x, ik |-> "-"]
+I(x)   == Num("int", x)
+Box(v) == [k |-> "box", n |-> v.n, ik |-> v.k]     \* Box(val=v): .val = v, .items = (v, v+1)
+ERR    == [k |-> "err", n |-> 0, ik |-> "-"]
+Promote(a, b) == IF "float" \in {a, b} THEN "float" ELSE "int"      \* bool + bool is an int
 IsErr(v) == v.k = "err"
 
-Lit(v)          == [t |-> "lit", v |-> v]
+Lit(v, k)       == [t |-> "lit", v |-> v, k |-> k]
 Call(f, a, c)   == [t |-> "call", f |-> f, args |-> a, c |-> c]
 Attr(e)         == [t |-> "attr", e |-> e]
 Item(e, i)      == [t |-> "item", e |-> e, i |-> i]
@@ -48,15 +53,21 @@ Item(e, i)      == [t |-> "item", e |-> e, i |-> i]
 \* integer-valued expressions of depth <= d (boxes only appear under attr/item)
 RECURSIVE IntExprs(_)
 IntExprs(d) ==
-  IF d = 0 THEN {Lit(v) : v \in Lits}
+  IF d = 0 THEN {Lit(v, k) : v \in Lits, k \in LitKinds}
   ELSE LET S == IntExprs(d - 1) IN
        S \cup {Call("inc", <<a>>, c) : a \in S, c \in BOOLEAN}
          \cup {Call("add", <<a, b>>, c) : a \in S, b \in S, c \in BOOLEAN}
          \cup {Call("kwf", <<a, b>>, c) : a \in S, b \in S, c \in BOOLEAN}
          \cup {Call("tick", <<>>, c) : c \in BOOLEAN}
+         \cup (IF WithKind THEN {Call("kind", <<a>>, c) : a \in S, c \in BOOLEAN} ELSE {})
          \cup {Call("boom", <<a>>, FALSE) : a \in S}
          \cup {Attr(Call("box", <<a>>, c)) : a \in S, c \in BOOLEAN}
          \cup {Item(Call("box", <<a>>, c), i) : a \in S, c \in BOOLEAN, i \in {0, 1}}
+
+\* expressions a behaviour materialises: the integer-valued ones, and a call whose result is a bytes object
+\* (a result of type bytes is a value like any other - it is the transport, not the evaluator, that unpickles bytes)
+\* and a call whose result is an exception OBJECT (returned, not raised: a value like any other)
+TopExprs(d) == IntExprs(d) \cup (IF WithKind /\ d > 0 THEN {Call(f, <<a>>, c) : f \in {"enc", "mkerr"}, a \in IntExprs(d - 1), c \in BOOLEAN} ELSE {})
 
 \* structural key: cache flags erased everywhere (LazyFn.__eq__ / __hash__ ignore them)
 RECURSIVE Key(_)
@@ -72,10 +83,13 @@ HasCached(e) == CASE e.t = "lit"  -> FALSE
                   [] e.t = "item" -> HasCached(e.e)
 
 Apply(f, vs, n) ==    \* <<value, ticks after>>
-  CASE f = "inc"  -> <<I(vs[1].n + 1), n>>
-    [] f = "add"  -> <<I(vs[1].n + vs[2].n), n>>
-    [] f = "kwf"  -> <<I(10 * vs[1].n + vs[2].n), n>>
-    [] f = "box"  -> <<Box(vs[1].n), n>>
+  CASE f = "inc"  -> <<Num(Promote(vs[1].k, "int"), vs[1].n + 1), n>>
+    [] f = "add"  -> <<Num(Promote(vs[1].k, vs[2].k), vs[1].n + vs[2].n), n>>
+    [] f = "kwf"  -> <<Num(Promote(vs[1].k, vs[2].k), 10 * vs[1].n + vs[2].n), n>>
+    [] f = "kind" -> <<I(CASE vs[1].k = "int" -> 0 [] vs[1].k = "bool" -> 1 [] vs[1].k = "float" -> 2), n>>
+    [] f = "enc"  -> <<[k |-> "bytes", n |-> vs[1].n, ik |-> vs[1].k], n>>      \* str(x).encode()
+    [] f = "mkerr" -> <<[k |-> "exc", n |-> vs[1].n, ik |-> vs[1].k], n>>       \* ValueError('made(x)'), returned
+    [] f = "box"  -> <<Box(vs[1]), n>>
     [] f = "tick" -> <<I(100 * (n + 1)), n + 1>>
     [] f = "boom" -> <<ERR, n>>
 
@@ -91,12 +105,13 @@ EvArgs(args, j, acc, st) ==
        ELSE EvArgs(args, j + 1, Append(acc, r.v), r.st)
 
 Ev(e, st) ==
-  CASE e.t = "lit" -> [v |-> I(e.v), st |-> st]
+  CASE e.t = "lit" -> [v |-> Num(e.k, e.v), st |-> st]
     [] e.t = "attr" ->
-         LET r == Ev(e.e, st) IN IF IsErr(r.v) THEN r ELSE [v |-> I(r.v.n), st |-> r.st]
+         LET r == Ev(e.e, st) IN IF IsErr(r.v) THEN r ELSE [v |-> Num(r.v.ik, r.v.n), st |-> r.st]
     [] e.t = "item" ->
          LET r == Ev(e.e, st) IN
-         IF IsErr(r.v) THEN r ELSE [v |-> I(r.v.n + e.i), st |-> r.st]
+         IF IsErr(r.v) THEN r
+         ELSE [v |-> IF e.i = 0 THEN Num(r.v.ik, r.v.n) ELSE Num(Promote(r.v.ik, "int"), r.v.n + e.i), st |-> r.st]
     [] e.t = "call" ->
          LET k   == Key(e)
              hit == IF e.c THEN Lookup(st.cache, k) ELSE {} IN
@@ -124,11 +139,18 @@ Eager(e, n) == Ev(Uncache(e), EmptySt(n))
 VARIABLES expr, st, hist
 vars == <<expr, st, hist>>
 
-Init == /\ expr \in IntExprs(Depth)
+Init == /\ expr \in TopExprs(Depth)
         /\ st = EmptySt(0)
         /\ hist = <<>>
 
-Obs(v, s) == [v |-> IF IsErr(v) THEN "ValueError" ELSE ToString(v.n), ticks |-> s.ticks,
+\* str() of the value
+RenderNum(k, n) == CASE k = "bool"  -> (IF n = 1 THEN "True" ELSE "False")
+                     [] k = "float" -> ToString(n) \o ".0"
+                     [] OTHER       -> ToString(n)
+Render(v) == IF v.k = "bytes" THEN "b'" \o RenderNum(v.ik, v.n) \o "'"
+             ELSE IF v.k = "exc" THEN "made(" \o RenderNum(v.ik, v.n) \o ")"
+             ELSE RenderNum(v.k, v.n)
+Obs(v, s) == [v |-> IF IsErr(v) THEN "ValueError" ELSE Render(v), ticks |-> s.ticks,
               size |-> Cardinality(s.cache), hits |-> s.hits, misses |-> s.misses]
 
 Make ==
